@@ -1061,5 +1061,30 @@ func runC16OSWalk(c *Ctx) {
 			c.Oracle("FAIL oswv%d walk:os:vanished-sibling callback answers %v to the error report of a vanished entry: afero.Walk(OsFs) %s | filepath.Walk %s", ai, answer, logs[1], logs[0])
 		}
 	}
+	// Glob over the same tree: a symbolic link to a directory as a non-final pattern element is followed
+	// (path/filepath stats the directory part), a dangling link as the last element is matched (Lstat)
+	g := 0
+	for _, pat := range []string{"ln-dir/*", "ln-*/*", "l*/x", "*/x", "*/*", "ln-d*/y/*", "ln-file/*", "ln-dangling/*", "ln-*", "*", "ln-dir/[x-z]", "ln-dangling", "ln-dang*", "a/../ln-dir/*", "*/y/z", "l?-dir/?"} {
+		g++
+		c.Count("osglob")
+		want, werr := filepath.Glob(filepath.Join(dir, pat))
+		got, gerr := afero.Glob(osfs, filepath.Join(dir, pat))
+		if strings.Join(got, ",") != strings.Join(want, ",") || (gerr == nil) != (werr == nil) {
+			c.Oracle("FAIL osg%d glob:os:symlinks afero.Glob(OsFs, %q) = %q, %v | filepath.Glob = %q, %v", g, pat, trimAll(got, dir), gerr, trimAll(want, dir), werr)
+		}
+		gotB, gerrB := afero.Glob(bp, "/"+pat)
+		if strings.Join(gotB, ",") != strings.Join(trimAll(want, dir), ",") || (gerrB == nil) != (werr == nil) {
+			c.Oracle("FAIL osgb%d glob:os:symlinks afero.Glob(BasePathFs(OsFs), %q) = %q, %v | filepath.Glob = %q, %v", g, "/"+pat, gotB, gerrB, trimAll(want, dir), werr)
+		}
+	}
+	c.Extra["os_glob"] = fmt.Sprintf("%d patterns over the temp dir with symbolic links, afero.Glob over OsFs and BasePathFs(OsFs) against filepath.Glob (oracle only)", g)
 	c.Extra["os_walk"] = fmt.Sprintf("%d walks of a temp dir with symbolic links (to a directory, to a file, dangling) by afero.Walk and Afero.Walk over OsFs and BasePathFs(OsFs), callbacks returning SkipDir / wrapped SkipDir / an error at visit k (oracle only)", n)
+}
+
+func trimAll(xs []string, prefix string) []string {
+	out := make([]string, len(xs))
+	for i, x := range xs {
+		out[i] = strings.TrimPrefix(x, prefix)
+	}
+	return out
 }
